@@ -3,6 +3,7 @@
 Patches come from /verif/seeded/<ID><X>/patch.diff if present, else /tmp/seed/<ID>.out/<X>.rebased.diff or <X>.patch.diff."""
 import json, os, subprocess, sys, time
 ROOT = "/verif"
+SEED_ROOT = os.environ.get("SEED_ROOT", "/tmp/seed")
 tier = "quick"
 props = None
 names = []
@@ -20,7 +21,9 @@ if st.strip():
 results = []
 for n in names:
     pid, x = n[:-1], n[-1]
-    cands = ["/verif/seeded/%s/patch.diff" % n, "/tmp/seed/%s.out/%s.rebased.diff" % (pid, x), "/tmp/seed/%s.out/%s.patch.diff" % (pid, x)]
+    cands = ["/verif/seeded/%s/patch.diff" % n, "%s/%s.out/%s.rebased.diff" % (SEED_ROOT, pid, x), "%s/%s.out/%s.patch.diff" % (SEED_ROOT, pid, x)]
+    if SEED_ROOT != "/tmp/seed":
+        cands = cands[1:]
     patch = next((c for c in cands if os.path.exists(c)), None)
     if not patch:
         print(n, "no patch")
@@ -38,7 +41,7 @@ for n in names:
             print("SEED %-5s check=%s rc=%d %.0fs %s" % (n, prop, r.returncode, time.time() - t0, sig[:3]), flush=True)
             if r.returncode == 2:
                 print(r.stdout[-1200:])
-            results.append(dict(seed=n, check=prop, rc=r.returncode, secs=round(time.time() - t0), sig=sig[:3]))
+            results.append(dict(seed=(n if SEED_ROOT == "/tmp/seed" else pid + {"A": "C", "B": "D"}[x]), check=prop, rc=r.returncode, secs=round(time.time() - t0), sig=sig[:3]))
     finally:
         subprocess.run(["git", "-C", "/repo", "checkout", "--", "."])
 json.dump(results, open("/tmp/seedrun_%d.json" % int(time.time()), "w"), indent=1)
